@@ -5,6 +5,7 @@ package main
 
 import (
 	"fmt"
+	"go/constant"
 	"go/token"
 	"go/types"
 	"sort"
@@ -1206,6 +1207,12 @@ func (g *Gen) loopHead(h *ssa.BasicBlock, phis []*ssa.Phi) {
 				o := g.oblige("inv-init", fmtf("%s/inv-init#loop%d.%d", g.fnLabel(), li.ord, k), implies(edge, t), c.Props, c.Text, h.Instrs[0].Pos())
 				o.Blk = h
 			}
+			for _, ph := range phis {
+				if y := counterBound(ph, li); y != nil && counterInit(ph, li) != nil {
+					o := g.oblige("inv-init", fmtf("%s/inv-init#loop%d.bound_%s", g.fnLabel(), li.ord, sym(ph.Comment)), implies(edge, app("<", sub[ph], g.val(y))), nil, "counter "+ph.Comment+" stays below the loop bound", h.Instrs[0].Pos())
+					o.Blk = h
+				}
+			}
 			for _, key := range g.loopFrameKeys(h) {
 				o := g.oblige("inv-init", fmtf("%s/loopframe-init#loop%d.%s", g.fnLabel(), li.ord, sym(key)),
 					implies(edge, g.frameFact(key, g.get(g.out[p], key), g.get(g.entry, key), g.fnModLocs(), true)), nil, "loop frame: "+modsText(g.fc), h.Instrs[0].Pos())
@@ -1245,8 +1252,120 @@ func (g *Gen) loopHead(h *ssa.BasicBlock, phis []*ssa.Phi) {
 				// every back edge like any invariant (init: -1 < len holds as len >= 0)
 				g.assume(app("<", g.vals[ph], g.val(bound)))
 			}
+		} else if v0 := counterInit(ph, li); v0 != nil {
+			// automatic counter fact: a variable only ever incremented in the loop stays >= its
+			// initial value (absent overflow: the step is an obligation on every back edge)
+			g.assume(app(">=", g.vals[ph], g.val(v0)))
+			if y := counterBound(ph, li); y != nil {
+				g.assume(app("<", g.vals[ph], g.val(y)))
+			}
 		}
 	}
+}
+
+// counterBound recognises the bottom-tested counting loop (`for i := range n`, and `for` loops the
+// SSA builder rotates): every in-loop edge into the phi carries next = phi+k and comes from a block
+// ending in `if next < Y goto head`, Y computed outside the loop. Then phi < Y is invariant.
+func counterBound(ph *ssa.Phi, li *loopInfo) ssa.Value {
+	var y ssa.Value
+	h := ph.Block()
+	for i, e := range ph.Edges {
+		pred := h.Preds[i]
+		if !li.blocks[pred] {
+			continue
+		}
+		if len(pred.Instrs) == 0 {
+			return nil
+		}
+		iff, ok := pred.Instrs[len(pred.Instrs)-1].(*ssa.If)
+		if !ok || pred.Succs[0] != h || pred.Succs[1] == h {
+			return nil
+		}
+		bo, ok := iff.Cond.(*ssa.BinOp)
+		if !ok || bo.Op != token.LSS || bo.X != e {
+			return nil
+		}
+		if in, isInstr := bo.Y.(ssa.Instruction); isInstr && li.blocks[in.Block()] {
+			return nil
+		}
+		if y != nil && y != bo.Y {
+			return nil
+		}
+		y = bo.Y
+	}
+	return y
+}
+
+// counterInit recognises `for i := v0; ...; i += k` (k a positive constant): the phi has one
+// edge from outside the loop carrying v0 and every edge from inside carries phi+k or phi.
+func counterInit(ph *ssa.Phi, li *loopInfo) ssa.Value {
+	if b, ok := ph.Type().Underlying().(*types.Basic); !ok || b.Info()&types.IsInteger == 0 {
+		return nil
+	}
+	var v0 ssa.Value
+	for i, e := range ph.Edges {
+		pred := ph.Block().Preds[i]
+		if !li.blocks[pred] {
+			if v0 != nil && v0 != e {
+				return nil
+			}
+			if in, isInstr := e.(ssa.Instruction); isInstr && li.blocks[in.Block()] {
+				return nil
+			}
+			v0 = e
+			continue
+		}
+		if e == ssa.Value(ph) {
+			continue
+		}
+		if !incrementOf(ph, e, 4) {
+			return nil
+		}
+	}
+	// only for counters whose increments cannot overflow: the loop is left as soon as the
+	// counter reaches a bound (tested at the head, `i < n`, or at the bottom, see counterBound)
+	if counterBound(ph, li) != nil {
+		return v0
+	}
+	h := ph.Block()
+	if len(h.Instrs) > 0 {
+		if iff, ok := h.Instrs[len(h.Instrs)-1].(*ssa.If); ok {
+			if bo, ok := iff.Cond.(*ssa.BinOp); ok && bo.Op == token.LSS && bo.X == ssa.Value(ph) && li.blocks[h.Succs[0]] && !li.blocks[h.Succs[1]] {
+				return v0
+			}
+		}
+	}
+	return nil
+}
+
+// incrementOf: e is ph, or ph plus positive constants (possibly through inner phis), e.g. the
+// `i++` of the loop statement after an `i++` inside the body.
+func incrementOf(ph *ssa.Phi, e ssa.Value, depth int) bool {
+	if e == ssa.Value(ph) {
+		return true
+	}
+	if depth == 0 {
+		return false
+	}
+	switch e := e.(type) {
+	case *ssa.BinOp:
+		if e.Op != token.ADD {
+			return false
+		}
+		c, isC := e.Y.(*ssa.Const)
+		if !isC || c.Value == nil || constant.Sign(c.Value) <= 0 {
+			return false
+		}
+		return incrementOf(ph, e.X, depth-1)
+	case *ssa.Phi:
+		for _, x := range e.Edges {
+			if !incrementOf(ph, x, depth-1) {
+				return false
+			}
+		}
+		return len(e.Edges) > 0
+	}
+	return false
 }
 
 // rangeIndexBound finds the loop bound of a `for range` index phi: the value len in the header's
@@ -1324,6 +1443,14 @@ func (g *Gen) backEdge(u, h *ssa.BasicBlock) {
 				goal = and(goal, app("<", sub[ph], g.val(bound)))
 			}
 			g.oblige("inv-step", fmtf("%s/inv-step#loop%d.rangeindex%s", g.fnLabel(), li.ord, esuf), implies(edge, goal), nil, "-1 <= rangeindex < len", ph.Pos())
+		} else if ok {
+			if v0 := counterInit(ph, li); v0 != nil && sub[ph] != g.vals[ph] {
+				goal := app(">=", sub[ph], g.val(v0))
+				if y := counterBound(ph, li); y != nil {
+					goal = and(goal, app("<", sub[ph], g.val(y)))
+				}
+				g.oblige("inv-step", fmtf("%s/inv-step#loop%d.counter_%s%s", g.fnLabel(), li.ord, sym(ph.Comment), esuf), implies(edge, goal), nil, "counter "+ph.Comment+" stays between its initial value and the loop bound", ph.Pos())
+			}
 		}
 	}
 	for _, key := range g.loopFrameKeys(h) {
